@@ -214,6 +214,8 @@ func genExp(r *rand.Rand, _ core.Tier) any {
 		in.DeleteFault = "notfound"
 	} else if x < 0.2 {
 		in.DeleteFault = "err"
+	} else if x < 0.25 {
+		in.DeleteFault = pick(r, apiErrClasses)
 	}
 	return in
 }
@@ -362,7 +364,7 @@ func implExp(raw json.RawMessage) (any, error) {
 		Delete: func(ctx context.Context, w client.WithWatch, obj client.Object, opts ...client.DeleteOption) error {
 			if _, ok := obj.(*v1.NodeClaim); ok && armed {
 				rec.deleted(obj.GetName())
-				if err := faultErr(in.DeleteFault, obj.GetName()); err != nil {
+				if err := apiErr(in.DeleteFault, obj.GetName()); err != nil {
 					return err
 				}
 			}
